@@ -189,6 +189,33 @@ func c03eval(c c03Case) []ev.Finding {
 			Detail: fmt.Sprintf("reference grouping %s, parser %s; first difference at %s: want %s got %s", want.String(), got.String(), path, a, b), Case: c, Rank: len(c.Ops)})
 		return out
 	}
+	// the same expression as the condition and as a field of a statement: the statement parser must not regroup it
+	// or drop its parentheses either (short chains; conditions go through parseCondition, fields through parseField)
+	if len(c.Ops) <= 2 && !c.Tight {
+		for _, tmpl := range []string{"SELECT x FROM m WHERE %s", "DELETE FROM m WHERE %s", "SELECT x FROM (SELECT y FROM m WHERE %s)"} {
+			st, err := influxql.ParseStatement(fmt.Sprintf(tmpl, text))
+			if err != nil {
+				continue // not every chain is a legal condition (regex operands, field validation)
+			}
+			var cond influxql.Expr
+			switch x := st.(type) {
+			case *influxql.SelectStatement:
+				cond = x.Condition
+				if len(x.Sources) == 1 {
+					if sq, ok := x.Sources[0].(*influxql.SubQuery); ok {
+						cond = sq.Statement.Condition
+					}
+				}
+			case *influxql.DeleteSeriesStatement:
+				cond = x.Condition
+			}
+			if path, a, b := astx.Diff(astx.Full, want, cond); path != "" {
+				out = append(out, ev.Finding{Sig: "grouping-in-statement:" + c03levels(c), Witness: fmt.Sprintf(tmpl, text),
+					Detail: fmt.Sprintf("as a condition: reference %s, parser %v; first difference at %s: want %s got %s", want.String(), cond, path, a, b), Case: c, Rank: len(c.Ops)})
+				return out
+			}
+		}
+	}
 	// second clause: printing and re-parsing gives the same grouping
 	printed := got.String()
 	again, err := influxql.ParseExpr(printed)
